@@ -84,7 +84,9 @@ def run(res, tier, replay):
         kind = i % 2; enc, plain = lz(0 if kind == 0 else 2, rng.choice([0, 1, 9, 100]))
         missing = rng.randrange(256)
         f = kwajfmt.szdd(kind, len(plain), enc, missing)
-        sc = scenario.Scn().file("in.sz", f).op("szdd_new").op("szdd_open", "h0", "in.sz").op("szdd_extract", "h0", "out0").op("szdd_extract", "h0", "out2").op("szdd_close", "h0").op("szdd_decompress", "in.sz", "out1")
+        sc = scenario.Scn().file("in.sz", f).op("szdd_new").op("szdd_open", "h0", "in.sz").op("szdd_extract", "h0", "out0")
+        if i % 2 == 1: sc.op("szdd_open", "h1", "missing.sz")      # a failed call in between leaves nothing behind: the next extract reports its own result
+        sc.op("szdd_extract", "h0", "out2").op("szdd_close", "h0").op("szdd_decompress", "in.sz", "out1")
         scns.append(sc); meta.append(("szdd", kind, len(plain), missing if kind == 0 else 0, plain))
     flagsets = list(range(64)) if tier == "thorough" else rng.sample(range(64), 24) + [0, 63]
     for fl in flagsets:
@@ -104,7 +106,9 @@ def run(res, tier, replay):
             unk2 = bytes(rng.randrange(256) for _ in range(rng.choice([0, 1, 17])))
             ln = rng.choice([len(plain), 0, 123456])
             f = kwajfmt.kwaj(comp, payload, fl, ln, b"\x12\x34", unk2, name, ext, extra, pad=bytes(rng.choice([0, 3])))
-            sc = scenario.Scn().file("in.kw", f).op("kwaj_new").op("kwaj_open", "h0", "in.kw").op("kwaj_extract", "h0", "out0").op("kwaj_extract", "h0", "out2").op("kwaj_close", "h0").op("kwaj_decompress", "in.kw", "out1")
+            sc = scenario.Scn().file("in.kw", f).op("kwaj_new").op("kwaj_open", "h0", "in.kw").op("kwaj_extract", "h0", "out0")
+            if (fl + comp) % 2 == 1: sc.op("kwaj_open", "h1", "missing.kw")      # a failed call in between: the next extract still reports its own result
+            sc.op("kwaj_extract", "h0", "out2").op("kwaj_close", "h0").op("kwaj_decompress", "in.kw", "out1")
             fn = None
             if fl & 0x18: fn = (name if fl & 8 else b"") + ((b"." + ext) if fl & 16 else b"")
             scns.append(sc); meta.append(("kwaj", comp, fl, ln if fl & 1 else 0, fn, extra if fl & 32 else None, plain))
